@@ -503,6 +503,20 @@ def gen_expect(seed: int) -> dict:
 
 
 PROFILES['expect'] = gen_expect
+
+
+def _expect_enum(seed):
+    """cancel-point enumeration: 128 consecutive seeds cancel the first expecting caller before callback step
+    1, 3, 5 ... 255 of one base run"""
+    base, i = seed // 128, seed % 128
+    sc = gen_expect(base)
+    sc['faults']['at_step'] = [[2 * i + 1, ['cancel_caller', 0]]]
+    sc['profile'] = 'expect_enum'
+    sc['seed'] = seed
+    return sc
+
+
+PROFILES['expect_enum'] = _expect_enum
 PROFILES['stop'] = lambda seed: gen_stop(seed)
 # enumeration: 256 consecutive seeds place the fault before every callback step 1..256 of one base run
 PROFILES['stop_enum'] = lambda seed: dict(gen_stop(seed // 256, k=seed % 256 + 1), profile='stop_enum', seed=seed)
